@@ -3,6 +3,7 @@
 #   lean/LiskVerif/Gen/Skeletons.lean        (C20)   + .build/skeletons.json
 #   lean/LiskVerif/Gen/SkeletonsTxPool.lean  (C14)   + .build/skeletons-txpool.json
 #   lean/LiskVerif/Gen/SkeletonsP2P.lean     (C17)   + .build/skeletons-p2p.json
+#   lean/LiskVerif/Gen/SkeletonsShared.lean  (C20: derived shared fields, queue / emitter wait-for) + .build/skeletons-c20x.json
 # VERIF_REPO / VERIF_LEAN override the repository and the Lean project (private copies).
 set -e
 cd "$(dirname "$0")"
